@@ -157,9 +157,6 @@ func TestC13Constructors(t *testing.T) {
 			got := dyn.Extract(S, ty, reflect.ValueOf(inst))
 			if d := aval.Diff(want, got, ""); d != "" {
 				msg := fmt.Sprintf("%s of %s does not carry the schema defaults: %s\n got =%s\n want=%s", what, nm.Full(), d, got.Canon(), want.Canon())
-				if kf.Open("KF-C13-none") {
-					return true
-				}
 				rec.Violation("constructor-"+nm.Name, msg, c)
 				t.Error(msg)
 				return false
@@ -209,6 +206,7 @@ func checkOmission(rec *stats.Recorder, c omitCase) (msg string, known string) {
 	ror2 := c.Reader == "ror2"
 	tr := refcodec.TreeOf(S, ty, v, refcodec.Opts{Bytes: refcodec.RawUTF8, ROR2: ror2})
 	if c.Reader == "json" && !refcodec.ValidForJSON(tr) {
+		rec.Label("skipped_not_denotable_in_json", 1)
 		return "", ""
 	}
 	rec.Case("reader="+c.Reader, fmt.Sprintf("omitted=%d", min3(omitted)), fmt.Sprintf("supplied=%d", min3(supplied)))
@@ -243,7 +241,7 @@ func checkOmission(rec *stats.Recorder, c omitCase) (msg string, known string) {
 		return fmt.Sprintf("decoded instance does not carry the schema defaults / a supplied value did not win: %s\n type=%s reader=%s\n document=%s\n got =%s\n want=%s", d, c.Type, c.Reader, hx.Q(doc), got.Canon(), want.Canon()), ""
 	}
 	// no sharing between two decoded instances
-	if p, _, _ := hx.Try(func() {
+	if p, pv, st := hx.Try(func() {
 		var r2 restlicodec.Reader
 		switch c.Reader {
 		case "json":
@@ -255,6 +253,7 @@ func checkOmission(rec *stats.Recorder, c omitCase) (msg string, known string) {
 		}
 		rv2, e2 := dyn.Unmarshal(S, ty, r2)
 		if e2 != nil {
+			msg = fmt.Sprintf("the document that was accepted once was rejected when decoded a second time: %v\n type=%s reader=%s document=%s", e2, c.Type, c.Reader, hx.Q(doc))
 			return
 		}
 		scramble(rv.Addr(), 0)
@@ -263,9 +262,25 @@ func checkOmission(rec *stats.Recorder, c omitCase) (msg string, known string) {
 			msg = fmt.Sprintf("mutating the default-populated containers of one decoded instance changed another instance: %s\n type=%s reader=%s document=%s", d, c.Type, c.Reader, hx.Q(doc))
 		}
 	}); p {
-		return "", ""
+		return fmt.Sprintf("decoding the same document a second time / mutating the first instance panicked: %v\n%s\n type=%s reader=%s document=%s", pv, st, c.Type, c.Reader, hx.Q(doc)), ""
 	}
 	return msg, ""
+}
+
+// omissionTypes: the records with defaults plus the complex keys whose key record or parameter record declares defaults
+// (a complex key is decoded like a record: its key's fields, and $params).
+var omissionTypesCache []schema.Type
+
+func omissionTypes() []schema.Type {
+	if omissionTypesCache == nil {
+		omissionTypesCache = append(omissionTypesCache, getDefaultRecords()...)
+		for _, n := range S.Types {
+			if n.Kind == "complexkey" && (hasDefaults(S.Lookup(*n.Key)) || hasDefaults(S.Lookup(*n.Params))) {
+				omissionTypesCache = append(omissionTypesCache, schema.RI(n.Ident))
+			}
+		}
+	}
+	return omissionTypesCache
 }
 
 func TestC13Omission(t *testing.T) {
@@ -282,7 +297,7 @@ func TestC13Omission(t *testing.T) {
 	}
 	rapid.Check(t, func(rt *rapid.T) {
 		var c omitCase
-		ty := drawType(rt, getDefaultRecords())
+		ty := drawType(rt, omissionTypes())
 		c.Reader = rapid.SampledFrom([]string{"json", "ror2", "any"}).Draw(rt, "reader")
 		c.Mask = rapid.IntRange(0, 1<<16-1).Draw(rt, "mask")
 		c.valCase = valCase{CorpusSeed: corpusSeed, Type: ty.String(), Format: c.Reader, Value: g.Value(rt, ty, 0)}
